@@ -57,7 +57,8 @@ def proxy_url(p):
 class C19(Prop):
     id = "C19"
     level = "fault_enumeration"
-    rule = ("proxies mapping (http only / https only / both / empty / None with HTTP_PROXY, HTTPS_PROXY set or unset), ws / wss "
+    rule = ("optionally after an earlier attempt through the proxy (same or another WebSocket object; its reply complete or cut "
+            "short; ended by EOF or reset): proxies mapping (http only / https only / both / empty / None with HTTP_PROXY, HTTPS_PROXY set or unset), ws / wss "
             "target with default or explicit port, proxy URL shapes (http/https, with/without port, user, user:password), 20 proxy "
             "reply classes (200 variants, other 2xx/3xx/4xx/5xx, garbage, empty, unterminated, oversized) followed by EOF or silence, "
             "every segmentation of the reply, and a fault at each proxy-socket call (resolve, connect, sendall, each recv). Oracle "
@@ -89,6 +90,11 @@ class C19(Prop):
             "fault": st.one_of(st.none(), st.none(), st.tuples(st.sampled_from(["resolve", "connect", "send", "recv"]),
                                                                st.integers(0, 3),
                                                                st.sampled_from(["reset", "timeout", "exc"])).map(list)),
+            # an EARLIER connection attempt through the proxy (same WebSocket object or another one): the proxy's
+            # answer then, possibly cut short, and how that connection ended
+            "earlier": gen.weighted([(3, st.none()), (1, st.fixed_dictionaries({
+                "reply": st.sampled_from([n for n, _, _ in REPLIES]), "cut": st.one_of(st.none(), st.integers(0, 120)),
+                "end": st.sampled_from(["eof", "reset"]), "same": st.booleans()}))]),
         })
 
     def enumerations(self, tier):
@@ -113,8 +119,25 @@ class C19(Prop):
                                    "proxy": {"scheme": pscheme, "host": "proxy.test", "port": None, "user": None, "password": None},
                                    "proxy2": {"scheme": pscheme, "host": "10.0.0.9", "port": 8080, "user": None, "password": None},
                                    "reply": name, "after": after, "seg": "bytewise", "fault": None}
+        def after_earlier_attempt():
+            for ename in ("200_established", "200_headers", "407", "403", "unterminated", "garbage"):
+                n = len(REPLY_BY_NAME[ename][0])
+                first_line = REPLY_BY_NAME[ename][0].find(b"\r\n") + 2
+                for cut in sorted({None, first_line, first_line + 3, n - 2} - {0}, key=lambda c: (c is None, c)):
+                    for end in ("eof", "reset"):
+                        for same in (True, False):
+                            for name in ("200_established", "200_headers", "407", "403", "empty"):
+                                for secure in (False, True):
+                                    yield {"secure": secure, "host": "example.test", "port": None, "mapping": "both",
+                                           "proxy": {"scheme": "http", "host": "proxy.test", "port": 3128, "user": None,
+                                                     "password": None},
+                                           "proxy2": {"scheme": "http", "host": "squid.corp.example", "port": None,
+                                                      "user": None, "password": None},
+                                           "reply": name, "after": "eof", "seg": "whole", "fault": None,
+                                           "earlier": {"reply": ename, "cut": cut, "end": end, "same": same}}
         return [Enumeration("every_cut_of_the_proxy_reply", every_cut, exhaustive=True),
-                Enumeration("every_reply_class", every_reply, exhaustive=True)]
+                Enumeration("every_reply_class", every_reply, exhaustive=True),
+                Enumeration("after_an_earlier_attempt_through_the_proxy", after_earlier_attempt, exhaustive=True)]
 
     def run_case(self, case):
         secure = case["secure"]
@@ -174,6 +197,15 @@ class C19(Prop):
             else:
                 att["faults"] = {kind: {str(n): how}}
         scn = {"url": url, "attempts": [att], "ws_opts": {"proxies": proxies}, "env": env, "horizon": 1000.0}
+        earlier = case.get("earlier")
+        if earlier:
+            eb = REPLY_BY_NAME[earlier["reply"]][0]
+            if earlier.get("cut") is not None:
+                eb = eb[:earlier["cut"] % (len(eb) + 1)]
+            # whatever the earlier attempt came to (it has its own simulated network), it is over
+            pre = [["wait_request"]] + ([["stream", [["bytes", eb]], "whole", 0.0]] if eb else []) + [[earlier["end"], 0.0]]
+            scn["prelude"] = {"attempts": [{"script": pre}], "same_object": earlier["same"]}
+            labels.add("after_earlier_attempt:" + ("same_object" if earlier["same"] else "other_object"))
         tr = simnet.run_scenario(scn)
         names = tr.names()
         sim = tr.sim
